@@ -1,4 +1,4 @@
-import PyramidModel.Lemmas.UrlWhole
+import PyramidModel.Lemmas.UrlJoin
 /-
 C17 — Generated URLs are well-formed and decode back to the supplied parts.
 
@@ -543,6 +543,147 @@ theorem path_variants_def (e : Env) (routes : Routes) (regs : List StaticReg) (c
     staticPath e routes regs path o = staticUrl e routes regs path { o with appUrl := some (quotedScriptName e) } ∧
     currentRoutePath e routes cur rn elems kw o =
       currentRouteUrl e routes cur rn elems kw { o with appUrl := some (quotedScriptName e) } := ⟨rfl, rfl⟩
+
+/-! ## 7. static views registered under an external base URL: `urljoin(base, quote(subpath))` -/
+
+/-- the lemma behind the external branch: a subpath quoted with urllib's default safe set holds none of
+`: ? # ;`, obeys the path grammar, starts with `/` only if the subpath does, and decodes back to the subpath —
+so the parser reads it as a bare relative path (no scheme, no authority, no query, no fragment, no params). -/
+theorem quoted_subpath_is_a_bare_path (sub : Text) (h0 : sub.head? ≠ some '/') :
+    (':' ∉ quote [47] sub ∧ '?' ∉ quote [47] sub ∧ '#' ∉ quote [47] sub ∧ ';' ∉ quote [47] sub) ∧
+    (quote [47] sub).head? ≠ some '/' ∧
+    urlsplit (quote [47] sub) = some ⟨[], [], quote [47] sub, [], []⟩ ∧
+    unquote (quote [47] sub) = some sub :=
+  ⟨quoted_subpath_chars sub, quote_head_ne_slash [47] sub h0,
+   urlsplit_relative _ (quoted_subpath_wf sub) (quoted_subpath_chars sub).1 (quote_head_ne_slash [47] sub h0),
+   quote_roundtrip [47] (by decide) sub⟩
+
+/-- **urljoin appends**: for a base `scheme://authority` + directory path `x/` whose segments need no resolution
+and a bare relative path `q` (path grammar, no `:` `;`, not starting with `/`, segments that need no resolution),
+`urljoin(base, q)` is the base followed by `q` — scheme (lower-cased), authority and base path intact. -/
+theorem urljoin_appends (sch auth x q : Text) (ho : OriginOk sch auth) (hb : BodyOk (x ++ ['/']))
+    (hrel : relativeSchemes.contains (sch.map lowerC) = true) (hauth : auth ≠ []) (hsemi : ';' ∉ x)
+    (hx : (splitOn '/' x).tail.all (fun s => !s.isEmpty) = true) (hxd : (splitOn '/' x).all notDot = true)
+    (hq : pctWF isPathC q = true) (hqne : q ≠ []) (hqc : ':' ∉ q) (hqs : ';' ∉ q) (hq0 : q.head? ≠ some '/')
+    (hqn : normalSegs (splitOn '/' q) = true) :
+    urljoin (sch ++ colonSlashSlash ++ auth ++ (x ++ ['/'])) q
+      = .ok (sch.map lowerC ++ colonSlashSlash ++ auth ++ (x ++ ['/']) ++ q) := by
+  have hbase := urlsplit_assembled sch auth (x ++ ['/']) none none ho hb (by intro t h; cases h) (by intro t h; cases h)
+  simp only [optPre, List.append_nil, Option.getD_none] at hbase
+  have hrelq := urlsplit_relative q hq hqc hq0
+  have hsne : sch ≠ [] := by
+    intro e; have := ho.first; rw [e] at this; simp [startsAlpha] at this
+  have hbne : sch ++ colonSlashSlash ++ auth ++ (x ++ ['/']) ≠ [] := by simp [hsne]
+  have hsemi' : (x ++ ['/']).contains ';' = false := by
+    cases hc : (x ++ ['/']).contains ';' with
+    | false => rfl
+    | true =>
+      have : ';' ∈ x ++ ['/'] := by simpa using hc
+      rcases List.mem_append.mp this with m | m
+      · exact absurd m hsemi
+      · simp at m
+  have hqs' : q.contains ';' = false := by
+    cases hc : q.contains ';' with
+    | false => rfl
+    | true => exact absurd (by simpa using hc) hqs
+  have hlne : sch.map lowerC ≠ [] := by simpa using hsne
+  unfold urljoin
+  simp only [hbne, if_false, hqne, hbase, hrelq, hsemi', hqs', Bool.or_self, Bool.false_eq_true, if_true, ne_eq,
+    not_true_eq_false, hrel, Bool.not_true, joinPaths_normal x q hq0 hx hxd hqn]
+  -- urlunsplit
+  have hp2 : x ++ '/' :: q ≠ [] := by simp
+  have hhead : (x ++ '/' :: q).head? = some '/' := by
+    rcases hb.lead with e | ⟨r, e⟩
+    · simp at e
+    · cases x with
+      | nil => rfl
+      | cons c r' => simp only [List.cons_append, List.cons.injEq] at e; simp [e.1]
+  simp only [urlunsplit, hauth, hlne, ne_eq, not_false_eq_true, decide_true, Bool.true_or, if_true, hp2, hhead,
+    bne_self_eq_false, Bool.and_false, Bool.false_eq_true, if_false, not_true_eq_false, decide_false]
+  simp [colonSlashSlash, List.append_assoc]
+
+/-- **external static URL**: for a registration under `scheme://authority/dir/` (lower-case scheme, directory path
+in normal form) and an asset whose subpath is non-empty, does not start with `/` and whose quoted form has segments
+that need no resolution, `static_url` returns the registered base URL followed by the quoted subpath, the query
+string and the fragment; the standard parser gives back the base's scheme and authority, a path that is the base
+path followed by a text that decodes to the subpath, and the encoded query / fragment. -/
+theorem static_external_url (e : Env) (routes : Routes) (regs : List StaticReg) (path : Text) (o : Ovr) (r : StaticReg)
+    (sch auth x : Text) (hf : regs.find? (fun r => r.spec.isPrefixOf path) = some r)
+    (hu : r.url = some (sch ++ colonSlashSlash ++ auth ++ (x ++ ['/'])))
+    (ho : OriginOk sch auth) (hlow : sch.map lowerC = sch) (hb : BodyOk (x ++ ['/']))
+    (hrel : relativeSchemes.contains sch = true) (hauth : auth ≠ []) (hsemi : ';' ∉ x)
+    (hx : (splitOn '/' x).tail.all (fun s => !s.isEmpty) = true) (hxd : (splitOn '/' x).all notDot = true)
+    (hsub : path.drop r.spec.length ≠ []) (hs0 : (path.drop r.spec.length).head? ≠ some '/')
+    (hn : normalSegs (splitOn '/' (quote [47] (path.drop r.spec.length))) = true) :
+    staticUrl e routes regs path o =
+      .ok (sch ++ colonSlashSlash ++ auth ++ (x ++ ['/']) ++ quote [47] (path.drop r.spec.length)
+            ++ qsOf o.query ++ fragOf o.anchor o.anchorTruthy) ∧
+    urlsplit (sch ++ colonSlashSlash ++ auth ++ (x ++ ['/']) ++ quote [47] (path.drop r.spec.length)
+            ++ qsOf o.query ++ fragOf o.anchor o.anchorTruthy)
+      = some ⟨sch, auth, (x ++ ['/']) ++ quote [47] (path.drop r.spec.length),
+              (qsOpt o.query).getD [], (fragOpt o.anchor o.anchorTruthy).getD []⟩ ∧
+    unquote (quote [47] (path.drop r.spec.length)) = some (path.drop r.spec.length) := by
+  obtain ⟨⟨hc1, _, _, hc4⟩, hq0, _, hdec⟩ := quoted_subpath_is_a_bare_path (path.drop r.spec.length) hs0
+  have hqne : quote [47] (path.drop r.spec.length) ≠ [] := by
+    cases hs : path.drop r.spec.length with
+    | nil => exact absurd hs hsub
+    | cons c t =>
+      intro hq
+      have : utf8Enc (c :: t) ≠ [] := by
+        simp only [utf8Enc, List.flatMap_cons, ne_eq, List.append_eq_nil_iff, not_and]
+        intro h; exact absurd h (utf8EncodeChar_ne_nil c)
+      unfold quote at hq
+      cases hb' : utf8Enc (c :: t) with
+      | nil => exact this hb'
+      | cons b bs =>
+        rw [hb'] at hq
+        unfold quoteBytes at hq
+        split at hq <;> simp at hq
+  have hj := urljoin_appends sch auth x _ ho hb (by rw [hlow]; exact hrel) hauth hsemi hx hxd
+    (quoted_subpath_wf _) hqne hc1 hc4 hq0 hn
+  rw [hlow] at hj
+  have hsne : sch ≠ [] := by
+    intro e'; have := ho.first; rw [e'] at this; simp [startsAlpha] at this
+  refine ⟨?_, ?_, hdec⟩
+  · unfold staticUrl
+    simp only [hf, hu]
+    have hbase : staticBase e (sch ++ colonSlashSlash ++ auth ++ (x ++ ['/'])) = sch ++ colonSlashSlash ++ auth ++ (x ++ ['/']) := by
+      unfold staticBase
+      cases sch with
+      | nil => exact absurd rfl hsne
+      | cons c t =>
+        have hc : c ≠ '/' := by
+          intro e'; have := ho.first; rw [e'] at this; simp [startsAlpha] at this; exact absurd this (by decide)
+        simp only [List.cons_append]
+        split
+        · rename_i heq; simp only [List.cons.injEq] at heq; exact absurd heq.1 hc
+        · rfl
+    simp only [hbase, hj]
+  · have hpath : pctWF isPathC ((x ++ ['/']) ++ quote [47] (path.drop r.spec.length)) = true :=
+      pctWF_append _ _ _ hb.wf (quoted_subpath_wf _)
+    have hlead : ∃ t, (x ++ ['/']) ++ quote [47] (path.drop r.spec.length) = '/' :: t := by
+      rcases hb.lead with e' | ⟨t, e'⟩
+      · simp at e'
+      · exact ⟨t ++ quote [47] (path.drop r.spec.length), by rw [e']; simp⟩
+    have := assembled_split gen_facts sch auth [] ((x ++ ['/']) ++ quote [47] (path.drop r.spec.length)) []
+      o.query o.anchor o.anchorTruthy ho ⟨.inl rfl, rfl⟩ hlead hpath rfl
+    simp only [List.append_nil, List.nil_append, hlow] at this
+    rw [← this]
+    simp only [List.append_assoc]
+
+/-- non-vacuity, and the regression witness for a too generous safe set in this branch: under the base
+`http://c/a/`, the asset subpath `i:h` (a scheme-like first segment) gives `http://c/a/i%3Ah` — the base is kept —
+and the hypotheses of `static_external_url` hold for it. -/
+theorem scheme_like_subpath_keeps_base :
+    (staticUrl ⟨sHttp, some ['h'], ['l'], p80, []⟩ []
+      [⟨some ['h', 't', 't', 'p', ':', '/', '/', 'c', '/', 'a', '/'], ['p', ':'], []⟩] ['p', ':', 'i', ':', 'h'] {}).toOption
+      = some ['h', 't', 't', 'p', ':', '/', '/', 'c', '/', 'a', '/', 'i', '%', '3', 'A', 'h'] ∧
+    normalSegs (splitOn '/' (quote [47] ['i', ':', 'h'])) = true ∧
+    (splitOn '/' ['/', 'a']).tail.all (fun s => !s.isEmpty) = true ∧ (splitOn '/' ['/', 'a']).all notDot = true ∧
+    relativeSchemes.contains sHttp = true := by decide
+
+example : OriginOk sHttp ['c'] ∧ BodyOk (['/', 'a'] ++ ['/']) :=
+  ⟨⟨by decide, by decide, by decide, by decide⟩, ⟨.inr ⟨_, rfl⟩, by decide⟩⟩
 
 /-- **F-C17c** (recorded finding): for a static view registered under an external URL, `static_path` returns the
 absolute URL — it is not `static_url` minus scheme and authority — and `_scheme` is ignored. -/
